@@ -157,6 +157,15 @@ func (r *Runner) exec(a Action) {
 		r.faults = append(r.faults, &faultSpec{srv: r.ids[i], site: site, nth: n, dec: dec})
 		w.Mu.Unlock()
 		r.feat("fault-armed")
+	case "flakyreads":
+		// the server's log store fails some of its next a.N reads (GetLog) where
+		// raft handles the error: the follower rejects, the leader retries
+		i := r.resolve(a.Srv)
+		w.Mu.Lock()
+		r.flakyReads[r.ids[i]] = &flakyRead{left: max(a.N, 5), odds: min(max(a.Arg, 1), 7)}
+		r.lastFaultMs = w.Now()
+		w.Mu.Unlock()
+		r.feat("flaky-log-reads")
 	case "restart":
 		i := r.resolve(a.Srv)
 		r.restart(i)
